@@ -100,7 +100,7 @@ theorem twice_good_iff_identical_repeat_in_time (dec : Decode) (d : Nat) (f : Fw
     (run dec ⟨none, d⟩ (events (.pkt (.fwd f) :: x :: post))).2 =
       ⟨decode dec f d, none, !(decide (x = .pkt (.fwd f)))⟩ ::
         (run dec ⟨none, dtAfter (decode dec f d)⟩
-          (events (match x with
+          (events (match (generalizing := false) x with
             | .pkt (.fwd g) => if g = f then post else x :: post
             | _ => post))).2 := by
   cases x with
